@@ -178,9 +178,10 @@ def model : Drv (Option Gen) where
       match s with
       | none => (s, ["bad-op"])
       | some g =>
-        if p.closed.panics then (s, ["panic"]) else
-        let g' := g.updateFromPosition root p
-        (some g', obsState g')
+        -- the model's checked update (`Metrics.Gen.updateChecked`): `none` = the code panics
+        match g.updateChecked root p with
+        | none => (s, ["panic"])
+        | some g' => (some g', obsState g')
     | some (.gen rf iv) =>
       match s with
       | none => (s, ["bad-op"])
@@ -270,7 +271,10 @@ def spec : Drv (Option SSt) where
       match s with
       | none => (s, ["bad-op"])
       | some st =>
-        if p.closed.panics then (s, ["panic"]) else (some { st with ps := st.ps ++ [p] }, [])
+        -- the return of a position without a cost of investment is undefined: the spec expects the
+        -- panic (same predicate as the model's: `Metrics.Exit.panics`; this line is a copy, not an
+        -- independent oracle)
+        if p.panics then (s, ["panic"]) else (some { st with ps := st.ps ++ [p] }, [])
     | some (.gen rf iv) =>
       match s with
       | none => (s, ["bad-op"])
